@@ -134,6 +134,20 @@ func (g *Gen) genBlocksOf(sc *Scenario, all []*Node) {
 		{
 			g.blockCase("sig-other-key", v, w.resign(env, nil, proposerKey+1, common.DOMAIN_BEACON_PROPOSER))
 			g.blockCase("sig-wrong-domain", v, w.resign(env, nil, proposerKey, common.DOMAIN_BEACON_ATTESTER))
+			if adj, ok := w.AdjacentForkEpoch(w.Spec.SlotToEpoch(env.Slot)); ok {
+				// proposer domain / envelope digest of the fork version of the neighbouring epoch
+				adjSig := w.C.Sign1(proposerKey, common.ComputeSigningRoot(env.BlockRoot, w.DomainAt(common.DOMAIN_BEACON_PROPOSER, adj)))
+				adjDigest := common.ComputeForkDigest(w.VersionAtEpoch(adj), w.GVR)
+				e := *env
+				e.Signature = adjSig
+				g.blockCase("sig-domain-of-adjacent-fork", v, &e)
+				e = *env
+				e.ForkDigest = adjDigest
+				g.blockCase("fork-digest-of-adjacent-fork", v, &e)
+				e = *env
+				e.Signature, e.ForkDigest = adjSig, adjDigest
+				g.blockCase("sig-and-digest-of-adjacent-fork", v, &e)
+			}
 			e := *env
 			e.Signature = garbageSig(9)
 			g.blockCase("sig-garbage", v, &e)
